@@ -77,6 +77,7 @@ type recorder struct {
 }
 
 var cur *recorder
+var preludeCounter int
 
 func installSink() {
 	zi.VerifSink = func(kind, a, b string, obj any) {
@@ -173,7 +174,7 @@ func runOnce(c *Case, order []int, opts ...z.ExecOption) (evs []Event, ret Ret) 
 	rec.root = destPtr.Elem()
 	var data any
 	if c.Mode == "parse" {
-		initDest(destPtr.Elem(), c.Schema)
+		initDest(destPtr.Elem(), c.Schema, c.Pre == 1)
 		data = frontEndData(c)
 	} else {
 		setValue(destPtr.Elem(), c.Schema, c.Input)
@@ -187,6 +188,8 @@ func runOnce(c *Case, order []int, opts ...z.ExecOption) (evs []Event, ret Ret) 
 			}
 			cur = nil
 		}()
+		runPrelude(preludeCounter)
+		preludeCounter++
 		cur = rec
 		var m z.ZogIssueMap
 		var l z.ZogIssueList
